@@ -412,6 +412,15 @@ func (e *errInterfaceNotValidForFieldMapping) Error() string {
 	return fmt.Sprintf("field mapping from an interface type, but actual type is not struct, struct ptr or map. InterfaceType= %v, ActualType= %v", e.interfaceType, e.actualType)
 }
 
+type errNilInFieldMappingPath struct {
+	field string
+	typ   reflect.Type
+}
+
+func (e *errNilInFieldMappingPath) Error() string {
+	return fmt.Sprintf("field mapping from field[%s], but its parent is a nil value of type %v", e.field, e.typ)
+}
+
 func checkAndExtractFromMapKey(fromMapKey string, input reflect.Value) (reflect.Value, error) {
 	if !reflect.TypeOf(fromMapKey).AssignableTo(input.Type().Key()) {
 		return reflect.Value{}, fmt.Errorf("field mapping from a map key, but input is not a map with string key, type=%v", input.Type())
@@ -569,11 +578,16 @@ func fieldMap(mappings []*FieldMapping, allowMapKeyNotFound bool) func(any) (map
 
 			var (
 				pathInputValue = inputValue
-				pathInputType  = inputValue.Type()
+				pathInputType  = reflect.TypeOf(input)
 				taken          = input
+				viaInterface   bool
 			)
 
 			for i, path := range fromPath {
+				if pathInputType != nil && pathInputType.Kind() == reflect.Interface {
+					viaInterface = true
+				}
+
 				taken, pathInputType, err = takeOne(pathInputValue, pathInputType, path)
 				if err != nil {
 					// we deferred check from Compile time to request time for interface types, so we won't panic here
@@ -588,6 +602,17 @@ func fieldMap(mappings []*FieldMapping, allowMapKeyNotFound bool) func(any) (map
 						if allowMapKeyNotFound {
 							continue loop
 						}
+						return nil, err
+					}
+
+					// a nil pointer or nil interface on the path can only be a request time error, so we won't panic here
+					var nilInPathErr *errNilInFieldMappingPath
+					if errors.As(err, &nilInPathErr) {
+						return nil, err
+					}
+
+					// the dynamic value held by an interface typed field cannot be checked at compile time, so we won't panic here
+					if viaInterface {
 						return nil, err
 					}
 
@@ -623,7 +648,22 @@ func takeOne(inputValue reflect.Value, inputType reflect.Type, from string) (tak
 
 		return f.Interface(), f.Type(), nil
 	case reflect.Ptr, reflect.Interface:
+		if inputValue.IsNil() {
+			return nil, nil, &errNilInFieldMappingPath{field: from, typ: inputValue.Type()}
+		}
+
 		inputValue = inputValue.Elem()
+		if inputValue.Kind() != reflect.Struct {
+			if inputType != nil && inputType.Kind() == reflect.Interface {
+				return nil, nil, &errInterfaceNotValidForFieldMapping{
+					interfaceType: inputType,
+					actualType:    inputValue.Type(),
+				}
+			}
+
+			return reflect.Value{}, nil, fmt.Errorf("field mapping from a field, but input is not struct, struct ptr or map, type= %v", inputValue.Type())
+		}
+
 		fallthrough
 	case reflect.Struct:
 		f, err = checkAndExtractFromField(from, inputValue)
@@ -632,8 +672,11 @@ func takeOne(inputValue reflect.Value, inputType reflect.Type, from string) (tak
 		}
 
 		return f.Interface(), f.Type(), nil
+	case reflect.Invalid:
+		// a nil interface value
+		return nil, nil, &errNilInFieldMappingPath{field: from, typ: inputType}
 	default:
-		if inputType.Kind() == reflect.Interface {
+		if inputType != nil && inputType.Kind() == reflect.Interface {
 			return nil, nil, &errInterfaceNotValidForFieldMapping{
 				interfaceType: inputType,
 				actualType:    inputValue.Type(),
